@@ -81,7 +81,8 @@ func sortPairs(p []sSynPair) {
 func sCheckThesauri(seg segment.Segment, sp *sSynSpec, except *roaring.Bitmap, excl []bool, tag string) {
 	ts, ok := seg.(segment.ThesaurusSegment)
 	vAssert(ok, tag+"thesaurus-segment")
-	for _, th := range append(append([]string{}, vThesauri...), "nosuch") {
+	// unknown names, and names of fields that exist but are not thesauri, answer with empty results
+	for _, th := range append(append([]string{}, vThesauri...), "nosuch", "body", "_id") {
 		thes, err := ts.Thesaurus(th)
 		vAssert(err == nil && thes != nil, tag+"thesaurus")
 		// left-hand terms in ascending order
@@ -144,6 +145,9 @@ func sCheckThesauri(seg segment.Segment, sp *sSynSpec, except *roaring.Bitmap, e
 			}
 			// reuse the objects for the next lookup
 			pre, preIt = sl, sit
+		}
+		if th == "body" || th == "_id" {
+			continue
 		}
 		// a thesaurus name contributes nothing to the ordinary dictionaries
 		d, err := seg.Dictionary(th)
